@@ -99,6 +99,10 @@ def main():
                         continue
                     try:
                         res[n] = o.version()
+                        # the reference the function is stored and looked up under carries the same version
+                        qn = o.fn_reference().qualified_name
+                        if not qn.endswith("#" + res[n]):
+                            res[n] = "err:stale-reference:" + qn.rsplit("#", 1)[-1] + "!=" + res[n]
                     except Exception as e:
                         res[n] = "err:" + type(e).__name__
                 out.append(res)
